@@ -285,3 +285,11 @@ theorem Unmarshal_eq {σ} (data : Bytes) (decode : DecM σ) (s : σ) :
   rw [this]
 
 end Pico.GoTie.D
+
+namespace Pico.GoTie.D
+open Pico Pico.Dec
+
+theorem NewDecoder_eq (data : Bytes) : GoSrc.Decoder.NewDecoder data = .ok (Dec.new data) := rfl
+theorem Err_eq (d : Dec) : GoSrc.Decoder.Err d = d.err := rfl
+
+end Pico.GoTie.D
